@@ -69,7 +69,8 @@ def ndarray2utpm(A):
     from .globalfuncs import zeros
     shp = numpy.shape(A)
     A = numpy.ravel(A)
-    retval = zeros(shp,dtype=A[0])
+    # entries may themselves be vector- or matrix-valued polynomials: their axes follow the container's
+    retval = zeros(shp + numpy.shape(A[0]),dtype=A[0])
 
     for na, a in enumerate(A):
         retval[numpy.unravel_index(na, shp)] = a
